@@ -227,6 +227,35 @@ def _slot_pairing(ctx: Ctx, model, F):
                  "_process_recv_msg can finish without putting anything on the response queue "
                  "(handler returned None, or building the fallback answer raised): the slot "
                  "taken for this request is never returned")
+    # ... whatever ends the handler, also a BaseException that is not an Exception
+    # (SystemExit, asyncio.CancelledError): the report sits in a finally clause
+    cons_f = cons + "#base-exception"
+    ctx.inst(cons_f)
+    par_ = A.parents(proc.node)
+    put_calls = [c for c in ast.walk(proc.node) if isinstance(c, ast.Call) and isinstance(c.func, ast.Attribute)
+                 and c.func.attr in ("put", "put_nowait") and A.dotted(c.func.value) == RESPQ]
+    hcalls = [c for c in ast.walk(proc.node) if isinstance(c, ast.Call) and A.call_name(c) == "self.handle_request"]
+
+    def _in_finally_of(call, guarded):
+        x = call
+        while x in par_:
+            up = par_[x]
+            if isinstance(up, ast.Try) and any(x is b or x in ast.walk(b) for b in up.finalbody) \
+                    and any(guarded is b or guarded in list(ast.walk(b)) for b in up.body):
+                return True
+            x = up
+        return False
+    okf = bool(put_calls and hcalls) and any(_in_finally_of(pc_, hcalls[0]) for pc_ in put_calls)
+    if not okf:
+        for t_ in ast.walk(proc.node):
+            if isinstance(t_, ast.Try) and hcalls and any(hcalls[0] in list(ast.walk(b)) for b in t_.body) \
+                    and any(h.type is None or ast.unparse(h.type) == "BaseException" for h in t_.handlers):
+                okf = True
+    if not okf:
+        ctx.fail(cons_f, proc.loc(), "the report that returns the thread slot follows a try/except Exception: "
+                 "a handler that ends with a BaseException which is no Exception (sys.exit(), "
+                 "asyncio.CancelledError out of asyncio.run()) skips it - the slot is lost and with "
+                 "max_threads=1 every later request is answered TOO_BUSY for ever")
     for p in puts:
         after = g.reach([p], include_starts=False)
         if any(q in after for q in puts):
